@@ -1,9 +1,12 @@
 #!/bin/bash
 # tools/eval_all_seeds.sh : regression over every kept seeded change: confirm it again and run the check(s) named in meta.json
+#   PATTERN='*-r1[01]s*' restricts it to some directories; OUT=file writes there instead of seeded/RESULTS.txt; VERIF_NO_SIDE_SHARDS=1 (inherited by
+#   the checks) runs them without the side shards - enough for every change that does not depend on a process mode
 here="$(dirname "$(dirname "$(readlink -f "$0")")")"
 one() { d="$1"; here="$2"; name=$(basename "$d"); for p in $(python3 -c "import json;print(' '.join(json.load(open('$d/meta.json'))['checked_by']))"); do
   o=$(timeout 1500 "$here/tools/eval_seed.sh" "$d" "$p" 2>&1); r=$(echo "$o" | grep -a -E "^demo clean|^RESULT" | tr '\n' ' ')
   c=$(echo "$o" | grep -a -oE "mechanism=[^ ]+ count=[0-9]+" | sed 's/.*count=//' | sort -n | tail -1); echo "$name $p $r maxcount=${c:-0}"; done; }
 export -f one
-ls -d "$here"/seeded/*/ | xargs -P ${JOBS:-6} -I{} bash -c 'one "{}" "'"$here"'"' | sort > "$here/seeded/RESULTS.txt"
-echo "detected: $(grep -c 'RESULT detected' "$here/seeded/RESULTS.txt") of $(wc -l < "$here/seeded/RESULTS.txt")"; grep -v "RESULT detected" "$here/seeded/RESULTS.txt"
+out="${OUT:-$here/seeded/RESULTS.txt}"
+ls -d "$here"/seeded/${PATTERN:-*}/ | xargs -P ${JOBS:-6} -I{} bash -c 'one "{}" "'"$here"'"' | sort > "$out"
+echo "detected: $(grep -c 'RESULT detected' "$out") of $(wc -l < "$out")"; grep -v "RESULT detected" "$out"
